@@ -21,6 +21,9 @@ spec["switch_scrutinee"] = [ [file, function, marker-text-inside-the-switch, gal
 spec["exprs"] = [ [file, function, anchor-regex, nth, gallina-name, [params], {c-subexpr: ident}], ... ]
    -> Definition name params : Z := untyped translation (gen_consts.P, a C truth value is 0/1) of group 1 of the
       nth match (0-based; the regex must match more than nth times) of the anchor inside the function body
+spec["present"] = [ [file, function, regex, gallina-name], ... ]
+   -> Definition name : Z := 1 if the regex matches inside the (preprocessed) function body, else 0
+      (is a difference counted in this branch?  is the state reset inside this function?)
 spec["call_args"] = [ [file, function, callee, argindex, gallina-name, [params], {c-subexpr: ident}], ... ]
    -> Definition name params : Z := untyped translation of that argument (casts to uint32 etc. dropped only when
       listed in the substitution map)
@@ -398,6 +401,11 @@ def emit(repo, spec, H):
         term = H.P(e, params, env).ternary_all()
         out.append("(* %s: %s: %s *)" % (ff, fn, cexpr.replace("*)", "* )").replace("(*", "( *")))
         out.append("Definition %s %s : Z := %s." % (name, " ".join("(%s : Z)" % p_ for p_ in params), term))
+    for ff, fn, rx, name in spec.get("present", []):
+        body = H.func_body(H.src(repo, ff), fn)
+        hit = re.search(rx, body, flags=re.S) is not None
+        out.append("(* %s: %s: /%s/ %s *)" % (ff, fn, rx.replace("*)", "* )").replace("(*", "( *"), "present" if hit else "ABSENT"))
+        out.append("Definition %s : Z := %d." % (name, 1 if hit else 0))
     for ent in spec.get("call_args", []):
         ff, fn, callee, idx, name, params, subst = ent
         body = H.func_body(H.src(repo, ff), fn)
